@@ -166,7 +166,8 @@ GMTLIKE = [('GMT+3', 10800, -10800), ('UTC+3', 10800, -10800), ('GMT-3', -10800,
 MALFORMED = ['EST5EDT,', 'EST5EDT,M3.2.0', 'EST5EDT,M3.2.0,M11.1.0,M1.1.1', 'EST5EDT,M3.2.0,M11.1.0/2/3',
              'EST5EDT,X3.2.0,M11.1.0', 'EST5EDT;M3.2.0;M11.1.0$', 'EST5EDT,M3.2,M11.1.0', 'EST5EDT,M3,M11',
              '5', 'EST5EDT4FOO3', 'EST5EDT,M3.2.0/abc,M11.1.0', 'EST 5', 'EST5EDT,,', 'EST5EDT,M3.2.0,M11.1.0 extra',
-             'EST5EDT,J,J', 'EST12345', '@#$', 'EST5EDT,M3.2.0,M11.1.0,', 'EST5:EDT']
+             'EST5EDT,J,J', 'EST12345', '@#$', 'EST5EDT,M3.2.0,M11.1.0,', 'EST5:EDT',
+             'EST5EDT,M3.2.0/2:00:00:00,M11.1.0', 'EST5:00:00:00EDT,M3.2.0,M11.1.0', 'EST5EDT,M3.2.0/2:,M11.1.0']
 
 
 def eval_fixed(case):
